@@ -195,6 +195,16 @@ func (v *Protocol) ExpectPacket(ppkt interface{}) (m *Message, err error) {
 			return nil, oe.WithMessage(err, "read message")
 		}
 
+		// Skip the messages which carry no packet, for example, the
+		// acknowledgement, or the audio and video, which can not be decoded.
+		switch m.MessageType {
+		case MessageTypeSetChunkSize, MessageTypeWindowAcknowledgementSize, MessageTypeSetPeerBandwidth,
+			MessageTypeAMF0Command, MessageTypeAMF3Command, MessageTypeAMF0Data, MessageTypeAMF3Data,
+			MessageTypeUserControl:
+		default:
+			continue
+		}
+
 		var pkt Packet
 		if pkt, err = v.DecodeMessage(m); err != nil {
 			return nil, oe.WithMessage(err, "decode message")
